@@ -454,14 +454,14 @@ class ForeignRun(FsRun):
         for p in before.t:
             if fm.is_under(p, "root"):
                 try:
-                    inodes[p] = os.stat(self.real(p)).st_ino
+                    inodes[p] = os.lstat(self.real(p)).st_ino
                 except OSError:
                     pass
         super().exec_op(op, pre)
         for p in m.t:
             if fm.is_under(p, "root") and p not in inodes:
                 try:
-                    inodes[p] = os.stat(self.real(p)).st_ino
+                    inodes[p] = os.lstat(self.real(p)).st_ino
                 except OSError:
                     pass
         self.render(op, before, inodes)
